@@ -20,6 +20,8 @@ LEDGER_MODELS = [
 VENUE_MODELS = [
     {"name": "venue", "module": "MC_Venue.tla", "cfg": {"quick": "MC_VenueQuick.cfg", "thorough": "MC_VenueThorough.cfg"},
      "setup": "setups/venue.json", "init_from_setup": True, "timeout": {"quick": 900, "thorough": 7200}},
+    {"name": "venuedrift", "module": "MC_Venue.tla", "cfg": {"quick": "MC_VenueDriftQuick.cfg", "thorough": "MC_VenueDriftThorough.cfg"},
+     "setup": "setups/venuedrift.json", "init_from_setup": True, "timeout": {"quick": 900, "thorough": 7200}},
 ]
 
 
